@@ -160,6 +160,30 @@ def observe(bb, spec, text):
     return (normalise(_snap.program(p)), t, inst_text)
 
 
+def pairing_violations(bb, spec, text):
+    """the documented freedom: a register transform may list its registers in any order, but the list stays paired with its
+    function - func applied to the measurement values of the listed registers, in the listed order, is the written expression"""
+    import sympy
+    if isinstance(SCRIPTS[spec], tuple):
+        return []
+    bad = []
+    p = bb.loads(text)
+    for oi, o in enumerate(p.operations):
+        for where, a in [("arg %d" % i, a) for i, a in enumerate(o.get("args", []))] + [("kwarg %s" % k, a) for k, a in o.get("kwargs", {}).items()]:
+            if type(a).__name__ != "RegRefTransform":
+                continue
+            val = {r: 0.375 + 1.25 * r + 0.03125 * r * r for r in a.regrefs}
+            try:
+                got = complex(a.func(*[val[r] for r in a.regrefs]))
+                exp = complex(a.expr.subs({sympy.Symbol("q%d" % r): v for r, v in val.items()}))
+            except Exception as e:  # noqa
+                bad.append("operation %d %s: %s" % (oi, where, type(e).__name__))
+                continue
+            if abs(got - exp) > 1e-9 * max(1.0, abs(exp)):
+                bad.append("operation %d %s: func(values of registers %s in this order) = %r, the expression %s has the value %r" % (oi, where, list(a.regrefs), got, a.expr, exp))
+    return bad
+
+
 def gen(spec, lv):
     if isinstance(SCRIPTS[spec], tuple):
         return {"text": "(program assembled through the API: %s)" % SCRIPTS[spec][1], "pre": []}
@@ -271,7 +295,13 @@ try:
     s = repr(snap) + "\n" + t + "\n" + repr(it)
 except Exception as e:
     s = "EXC %%s %%s" %% (type(e).__name__, e)
-print(hashlib.sha256(s.encode()).hexdigest()); print(s[-600:])
+print(hashlib.sha256(s.encode()).hexdigest())
+try:
+    for b in c19.pairing_violations(blackbird, %(spec)r, text):
+        print("PAIRING " + b)
+except Exception as e:
+    pass
+print(s[-600:])
 '''
 
 
@@ -286,6 +316,11 @@ def seed_sweep(spec, vals, seeds):
         lines = p.stdout.strip().split("\n")
         if not lines or len(lines[0]) != 64:
             continue
+        broken = [l for l in lines[1:] if l.startswith("PAIRING ")]
+        if broken:
+            return {"text": text, "values": vals, "what": "a register transform's register list is not paired with its function (PYTHONHASHSEED=%d)" % sd,
+                    "observed": "\n".join(broken[:3]), "expected": "func(*[value of q_r for r in regrefs]) == the written expression"}
+        lines = [l for l in lines if not l.startswith("PAIRING ")]
         seen.setdefault(lines[0], (sd, "\n".join(lines[1:])))
         if len(seen) > 1:
             (a, (sa, ta)), (b, (sb, tb)) = list(seen.items())[:2]
